@@ -6,20 +6,19 @@
    Specifications: H1/ChunkedSpec.v ([bw] = byte-wise semantics; RFC 7230 4.1 grammar),
    [body_bw] in H1/PayloadDecProofs.v (segmentation-free meaning of a payload decoder).
 
-   NOT PROVED (kept visible; tested by the harness on every generated case, oracle (i)):
-     C01_codec_segmentation (full statement):
-       forall head maxb, HeadLaws head -> forall segs,
-         (every request head met by the whole-stream run is decided within its first maxb-1 bytes) ->
-         feed head maxb segs codec0 [] [] = run head maxb (run_fuel (concat segs)) codec0 (concat segs) [].
-     What is proved instead: the two phases separately — body phases in full
-     (C01_payload_segmentation_independent, every decoder kind, every segment list) and the head
-     phase as a one-step law (C01_head_decision_segmentation_independent); their composition over
-     a pipeline is the missing induction.
+   Whole-codec segmentation independence (section 7) compares outcomes with [onorm]: everything is
+   compared exactly (requests, headers, bodies, completion flags, unread bytes, codec state, error
+   class and the messages before it) except the body bytes already delivered for the message
+   whose chunk framing turned out malformed (I/O-class error): those are not compared.
+
+   NOT PROVED (kept visible):
      C01_chunked_sound (converse of C01_chunked_grammar_accepted): every accepted chunked body is
-     a rendering of the grammar — false as stated because of F3 (C01_refuted_empty_chunk_size);
-     the version outside the known class is not proved. *)
+     a rendering of the grammar (plausible since the repair of F3, C01_empty_chunk_size_rejected).
+     The dispatcher-level claims (4xx, close, nothing dispatched after) have no model here; they
+     are judged on the real dispatcher by runner B. *)
 From AV Require Import Lib.Base Gen.Consts H1.Chunked H1.ChunkedSpec H1.ChunkedProofs H1.PayloadDec
-  H1.PayloadDecProofs H1.Framing H1.FramingProofs H1.Codec H1.SimpleHead H1.CodecProofs.
+  H1.PayloadDecProofs H1.Framing H1.FramingProofs H1.Codec H1.SimpleHead H1.CodecProofs
+  H1.CodecSegProofs.
 
 (* ===== 1. segmentation independence of the body decoders (unbounded) ======================= *)
 
@@ -80,23 +79,14 @@ Theorem C01_chunked_grammar_accepted : forall cs last rest acc,
   bw Size 0 (render_body cs last ++ rest) acc = Ok (End, 0, rest, acc ++ body_data cs, true).
 Proof. exact grammar_accepted. Qed.
 
-(* finding F3: a size line without any digit is taken for the last chunk *)
-Theorem C01_refuted_empty_chunk_size :
-  exists buf, bw Size 0 buf [] = Ok (End, 0, [], [], true) /\
-              (forall cs last, Forall chunk_wf cs -> last_wf last -> render_body cs last <> buf).
+(* F3 (repaired in /repo bdb7061): chunk-size = 1*HEXDIG. A size line that does not start with a
+   hex digit - "\r\n", ";ext\r\n", " \r\n", at the first chunk or after any chunk - is an error,
+   whatever follows and whatever size the register holds *)
+Theorem C01_empty_chunk_size_rejected : forall sz b rest acc,
+  hexval b = None -> bw Size sz (b :: rest) acc = Err.
 Proof.
-  exists [13; 10; 13; 10]. split; [reflexivity|].
-  intros cs last Hcs [(Hne & Hh & _) _] Heq.
-  destruct cs as [|c cs].
-  - unfold render_body, render_size_line in Heq. cbn [map concat app] in Heq.
-    destruct (sl_digits last) as [|d ds]; [congruence|].
-    cbn [forallb] in Hh. apply andb_true_iff in Hh as [Hd _].
-    cbn [app] in Heq. inversion Heq; subst d. discriminate Hd.
-  - inversion Hcs as [|? ? [(Hne' & Hh' & _) _] _]; subst.
-    unfold render_body, render_chunk, render_size_line in Heq. cbn [map concat] in Heq.
-    destruct (sl_digits (ch_line c)) as [|d ds]; [congruence|].
-    cbn [forallb] in Hh'. apply andb_true_iff in Hh' as [Hd _].
-    rewrite <- !app_assoc in Heq. cbn [app] in Heq. inversion Heq; subst d. discriminate Hd.
+  intros sz b rest acc H. rewrite bw_ctl by reflexivity. rewrite cstep_size_needs_digit by assumption.
+  reflexivity.
 Qed.
 
 (* ===== 3. chunk-size arithmetic ============================================================== *)
@@ -115,27 +105,32 @@ Proof.
 Qed.
 
 (* a chunk size of 2^64 or more is rejected, however many digits it has *)
-Theorem C01_chunk_size_overflow_rejected : forall ds sz r acc,
+Theorem C01_chunk_size_overflow_rejected : forall ds s sz r acc,
+  s = Size \/ s = SizeDigits ->
   forallb is_hex ds = true -> sz <= u64_max -> u64_max < hexnum sz ds ->
-  bw Size sz (ds ++ r) acc = Err.
+  bw s sz (ds ++ r) acc = Err.
 Proof.
-  induction ds as [|d ds IH]; intros sz r acc Hh Hb Ho.
+  induction ds as [|d ds IH]; intros s sz r acc Hs Hh Hb Ho.
   - unfold hexnum in Ho. cbn [fold_left] in Ho. lia.
   - cbn [forallb] in Hh. apply andb_true_iff in Hh as [Hd Hh].
-    rewrite hexnum_cons in Ho. cbn [app]. rewrite bw_ctl by reflexivity. cbn [cstep].
+    rewrite hexnum_cons in Ho. cbn [app].
+    rewrite bw_ctl by (destruct Hs; subst; reflexivity).
     unfold is_hex in Hd. unfold hexdig in Ho. destruct (hexval d) as [v|] eqn:Hv; [|discriminate].
+    assert (Hc : cstep s sz d = size_digit sz v) by (destruct Hs; subst; cbn [cstep]; rewrite Hv; reflexivity).
+    rewrite Hc. unfold size_digit.
     destruct (sz * 16 <=? u64_max) eqn:E1; [|reflexivity].
     pose proof (hexval_lt16 _ _ Hv). pose proof (mul16_add_digit_fits sz v).
     destruct (sz * 16 + v <=? u64_max) eqn:E2; [|lia].
-    apply IH; try assumption. lia.
+    apply IH; try assumption; [right; reflexivity|lia].
 Qed.
 
 (* ===== 4. malformed chunk syntax is an error, and an error is the same for every continuation *)
 Theorem C01_bad_chunk_syntax_rejected : forall sz b,
   (b <> 13 -> cstep BodyCr sz b = Err /\ cstep EndCr sz b = Err) /\
   (b <> 10 -> cstep BodyLf sz b = Err /\ cstep EndLf sz b = Err /\ cstep SizeLf sz b = Err) /\
+  (hexval b = None -> cstep Size sz b = Err) /\
   (hexval b = None -> b <> 9 -> b <> 32 -> b <> 59 -> b <> 13 ->
-     cstep Size sz b = Err /\ cstep SizeLws sz b = Err) /\
+     cstep SizeDigits sz b = Err /\ cstep SizeLws sz b = Err) /\
   (hexval b <> None -> cstep SizeLws sz b = Err) /\
   (ext_forbidden b = true -> b <> 13 -> cstep Extension sz b = Err).
 Proof.
@@ -261,6 +256,61 @@ Qed.
 Theorem C01_nothing_after_reject : forall head maxb s1 s2 c r acc e ms,
   feed head maxb s1 c r acc = OError e ms -> feed head maxb (s1 ++ s2) c r acc = OError e ms.
 Proof. intros. apply error_is_final. assumption. Qed.
+
+(* ===== 7. segmentation independence of the whole request codec (unbounded) ================== *)
+
+(* For ANY tokenizer obeying the laws, ANY list of read segments and ANY pipeline: feeding the
+   segments one by one (read_buf.extend(seg); drain) gives the same outcome as draining the whole
+   stream at once - same requests, header lists, body bytes, completion flags, unread remainder,
+   codec state, and the same rejection (class and point) - provided no request head straddles
+   the MAX_BUFFER_SIZE threshold (NoBand: finding F19 is exactly the failure of this premise). *)
+Theorem C01_codec_segmentation : forall head, HeadLaws head -> head [] = HPartial ->
+  forall segs : list bytes,
+  NoBand head H1_MAX_BUFFER_SIZE (concat segs) ->
+  onorm (feed head H1_MAX_BUFFER_SIZE segs codec0 [] []) =
+  onorm (run head H1_MAX_BUFFER_SIZE (run_fuel (concat segs)) codec0 (concat segs) []).
+Proof.
+  intros head HL H0 segs Hnb.
+  exact (feed_eq_run head H1_MAX_BUFFER_SIZE HL segs eq_refl H0 Hnb).
+Qed.
+
+(* hence two segmentations of the same stream cannot be told apart *)
+Theorem C01_codec_two_segmentations : forall head, HeadLaws head -> head [] = HPartial ->
+  forall segs1 segs2 : list bytes,
+  concat segs1 = concat segs2 -> NoBand head H1_MAX_BUFFER_SIZE (concat segs1) ->
+  onorm (feed head H1_MAX_BUFFER_SIZE segs1 codec0 [] []) =
+  onorm (feed head H1_MAX_BUFFER_SIZE segs2 codec0 [] []).
+Proof.
+  intros head HL H0 segs1 segs2 E Hnb.
+  rewrite (C01_codec_segmentation head HL H0 segs1 Hnb).
+  rewrite E in Hnb. rewrite (C01_codec_segmentation head HL H0 segs2 Hnb). rewrite E. reflexivity.
+Qed.
+
+(* the premise holds unconditionally for every stream shorter than MAX_BUFFER_SIZE - 1 bytes *)
+Theorem C01_codec_segmentation_short_streams : forall head, HeadLaws head -> head [] = HPartial ->
+  forall segs : list bytes,
+  lenN (concat segs) < H1_MAX_BUFFER_SIZE - 1 ->
+  onorm (feed head H1_MAX_BUFFER_SIZE segs codec0 [] []) =
+  onorm (run head H1_MAX_BUFFER_SIZE (run_fuel (concat segs)) codec0 (concat segs) []).
+Proof.
+  intros head HL H0 segs Hl. apply C01_codec_segmentation; try assumption.
+  apply NoBand_short. unfold lenN in Hl. generalize dependent H1_MAX_BUFFER_SIZE. intros; lia.
+Qed.
+
+(* instance: the concrete tokenizer *)
+Theorem C01_codec_segmentation_simple_head : forall segs : list bytes,
+  NoBand (simple_head H1_MAX_HEADERS) H1_MAX_BUFFER_SIZE (concat segs) ->
+  onorm (feed (simple_head H1_MAX_HEADERS) H1_MAX_BUFFER_SIZE segs codec0 [] []) =
+  onorm (run (simple_head H1_MAX_HEADERS) H1_MAX_BUFFER_SIZE (run_fuel (concat segs)) codec0 (concat segs) []).
+Proof. apply C01_codec_segmentation; [apply simple_head_laws|reflexivity]. Qed.
+
+(* the drain loop never runs out of the fuel the model gives it *)
+Theorem C01_run_fuel_suffices : forall head, HeadLaws head -> forall buf acc,
+  run head H1_MAX_BUFFER_SIZE (run_fuel buf) codec0 buf acc <> OFuel.
+Proof.
+  intros head HL buf acc. apply run_enough; [assumption|exact I|].
+  unfold run_fuel, measure. pose proof (pend_le1 codec0). lia.
+Qed.
 
 (* ===== non-vacuity ============================================================================ *)
 (* GET /a (no body) | POST /b with Content-Length: 3 | POST /c chunked with an extension,
